@@ -47,11 +47,16 @@ def run():
         text = usable[i]["text"]
         if r["m"] != (kind == "over"):
             raise Inconclusive("witness %r (%s) for %r does not reproduce on the real build" % (w, kind, text))
+        if (kind, i) in ses.patch_undecided:
+            rep.undecided_add({"program": text, "clause": kind, "why": "patched obligation (known-finding attribution) undecided"})
+            continue
         rs = {"accepts-undocumented" if kind == "over" else "rejects-documented"}
         ar = roles.ast_roles(usable[i]["ast"])
         if (kind, i) in explained:
             rs.add("rooted-leading-tree")
-        rs |= ar & {"tree-at-branch-edge", "class-under-case-flag", "lone-rooted-tree"}
+        rs |= ar & {"class-under-case-flag", "lone-rooted-tree"}
+        if ref.superposition_mismatch(usable[i]["ast"]):
+            rs.add("tree-at-branch-edge")
         if "\n" in w:
             rs.add("newline-in-path")
         rep.candidate(rs, {"short": {"program": text, "clause": kind, "path": w,
